@@ -265,6 +265,13 @@ def norm(t, _arith=True):  # noqa: C901, PLR0911, PLR0912
     if tag == "cmp" and t[1] == ("==",):
         xs = sorted((norm(t[2][0]), norm(t[2][1])), key=repr)
         return ("op", "==", tuple(xs))
+    if tag == "cmp" and len(t[1]) == 1 and t[1][0] in ("<", ">", "<=", ">=", "!="):
+        a, b = norm(t[2][0]), norm(t[2][1])
+        op = t[1][0]
+        if repr(a) > repr(b):
+            a, b = b, a
+            op = {"<": ">", ">": "<", "<=": ">=", ">=": "<=", "!=": "!="}[op]
+        return ("cmp", (op,), (a, b))
     if tag == "boolop":
         return ("boolop", t[1], tuple(norm(x) for x in t[2]))
     return tuple(norm(x) if isinstance(x, tuple) else x for x in t)
